@@ -139,12 +139,25 @@ def debug_assert_ok(P, unit, s):
                             ok = True
                         if ce[0] == "unop" and ce[1] == "Not" and ce[2][0] == "call" and ce[2][1].split("::")[-1] == "is_ascii" and v is False:
                             ok = True
-                    if not ok and b.kind in ("Fn", "AssocFn") and not b.impl_trait and not b.in_trait and b.j.get("vis") == "Restricted" \
-                            and any(x[0] == "arg" for x in sym.walk(PN.expand(S, arg))):
+                        if _all_ascii_evidence(P, unit, PN.expand(S, ce), v):
+                            ok = True
+                    # a closure / nested fn pushes on behalf of the function it is written in
+                    hb = b
+                    if b.kind == "Closure" or b.parent_fn:
+                        own = D.enclosing_fn(P, b.npath)
+                        hb = next((x for x in uu.bodies if x.npath == own), b)
+                    ex_arg = PN.expand(S, arg)
+                    derived = any(x[0] == "arg" for x in sym.walk(ex_arg))
+                    if not derived and hb is not b:
+                        derived = True       # a closure parameter: an item of the iterator its function built
+                    if not derived and not any(x[0] == "bytes" for x in sym.walk(ex_arg)) and \
+                            all(x[1].startswith(("core::", "alloc::")) for x in sym.walk(ex_arg) if x[0] == "call") and any(x[0] == "call" and x[1].split("::")[-1] in ("next", "split_first", "split_last", "first", "last") for x in sym.walk(ex_arg)):
+                        derived = True       # an item / piece taken from an iterator or slice of the function's own (core API only)
+                    if not ok and hb.kind in ("Fn", "AssocFn") and not hb.impl_trait and not hb.in_trait and hb.j.get("vis") == "Restricted" and derived:
                         # a crate-private helper that pushes (pieces of) its own slice argument - wherever it lives: the
                         # guarantee is owed by each of its callers
-                        cbs = _callers(P, b.npath)
-                        ok = bool(cbs) and all(_caller_checks_ascii(P, cb, b.npath) for cb in cbs)
+                        cbs = _callers(P, hb.npath)
+                        ok = bool(cbs) and all(_caller_checks_ascii(P, cb, hb.npath) for cb in cbs)
                     if arg[0] == "field" and arg[2] == "0" and ("Character" in (b.impl_self or "") or "Expression" in (b.impl_self or "")):
                         ok = True  # wrapper types documented to hold (lexer-validated) ASCII
                     if not ok:
@@ -166,6 +179,49 @@ def _callers(P, npath):
     return out
 
 
+_PRED_CACHE = {}
+
+
+def _bytes_predicate(P, unit, cdef):
+    """the set of byte values for which a `|b: &u8| -> bool` closure answers true (the closure folded on all 256 bytes), or
+    None when it cannot be folded"""
+    if cdef in _PRED_CACHE:
+        return _PRED_CACHE[cdef]
+    body = next((x for uu in P.units for x in uu.bodies if x.kind == "Closure" and (x.path == cdef or facts.strip_generics(x.path) == facts.strip_generics(cdef))), None)
+    res = None
+    if body is not None:
+        eng = fdai.Engine(P, unit, inline=lambda n, r: False, models=dict(M.FOLD_MODELS), loop_limit=8, max_paths=4)
+        res = set()
+        for bv in range(256):
+            try:
+                rs = eng.run(body, [RefV(Cell(AggV("closure-env", {}), "env")), RefV(Cell(K(bv), "byte"))])
+            except (fdai.TooManyPaths, RecursionError):
+                res = None
+                break
+            if len(rs) != 1 or rs[0].outcome != "return" or not isinstance(rs[0].retval, K) or not isinstance(rs[0].retval.v, bool):
+                res = None
+                break
+            if rs[0].retval.v:
+                res.add(bv)
+    _PRED_CACHE[cdef] = res
+    return res
+
+
+def _all_ascii_evidence(P, unit, ce, v):
+    """a dominating condition that makes every byte of the examined slice ASCII: `x.iter().any(p) == false` with p true for
+    every byte >= 128, or `x.iter().all(p) == true` with p false for every byte >= 128 (p folded on all byte values)"""
+    if ce[0] == "call" and ce[1].startswith("core::iter::") and ce[1].split("::")[-1] in ("any", "all") and len(ce[3]) == 2 and isinstance(v, bool):
+        clo = ce[3][1]
+        if isinstance(clo, tuple) and clo and clo[0] == "closure":
+            pred = _bytes_predicate(P, unit, clo[1])
+            if pred is not None:
+                if ce[1].endswith("any") and v is False:
+                    return all(bv in pred for bv in range(128, 256))
+                if ce[1].endswith("all") and v is True:
+                    return all(bv not in pred for bv in range(128, 256))
+    return False
+
+
 def _caller_checks_ascii(P, b, helper):
     S = sym.Sym(b.mir)
     for c in b.calls():
@@ -173,6 +229,8 @@ def _caller_checks_ascii(P, b, helper):
             conds = PN.dom_conditions(b.mir, c.bi, S)
             ok = False
             for ce, v, _ in conds:
+                if _all_ascii_evidence(P, P.unit("scpi"), PN.expand(S, ce), v):
+                    ok = True
                 if ce[0] == "call" and ce[1].split("::")[-1] == "is_ascii" and v is True:
                     ok = True
                 if ce[0] == "unop" and ce[1] == "Not" and "is_ascii" in repr(ce) and v is False:
